@@ -281,6 +281,41 @@ def dec(rng, lo, hi, nd=3):
     return f"{s}{v // q}.{v % q:0{nd}d}"
 
 
+def guise(a, salt=""):
+    """the same numbers in another memory layout — C order, Fortran order, axes stored in reverse order, or a strided view into a larger
+    buffer (every second row of it).  A routine that is told nothing about strides must return the same result for all of them; code
+    that reshapes with order="A", builds strides by hand, or writes into the result of a reshape that silently copied is wrong on
+    exactly these.  The choice is a function of the contents (and `salt`), so a stored case reproduces it."""
+    import zlib
+    import numpy as np
+    a = np.asarray(a)
+    if a.ndim == 0 or a.size == 0:
+        return a
+    k = zlib.crc32(a.tobytes() + str(a.shape).encode() + salt.encode()) % 5
+    if k <= 1:
+        return a
+    if k == 2 and a.ndim >= 2:
+        return np.asfortranarray(a)
+    if k == 3 and a.ndim >= 2:
+        return np.ascontiguousarray(a.transpose(tuple(range(a.ndim))[::-1])).transpose(tuple(range(a.ndim))[::-1])
+    big = np.zeros((2 * a.shape[0],) + a.shape[1:], dtype=a.dtype)
+    big[1::2] = 7                       # what lies between the rows is not zero
+    v = big[::2]
+    v[...] = a
+    return v
+
+
+def truthy(flag, salt=""):
+    """a yes/no option in another type: True as True, numpy.bool_(True), 1 or numpy.int64(1); False as False, numpy.bool_(False), 0 —
+    an option documented as a flag must not be tested by identity (`is True`)"""
+    import zlib
+    import numpy as np
+    k = zlib.crc32(repr((bool(flag), salt)).encode()) % 4
+    if flag:
+        return [True, np.bool_(True), 1, np.int64(1)][k]
+    return [False, np.bool_(False), 0, False][k]
+
+
 def row_order(rows, salt=""):
     """order in which the rows of one frame of a neighbour / bond-property file are written.  Every row carries its particle id, so the
     file means the same in any order; a reader that stores a row by its position in the file is wrong on exactly the files whose rows
